@@ -67,7 +67,7 @@ def _mk(F, fmt, vals, shape):
 
 
 def _fmt(z):
-    return [bool(z.signed), int(z.n_word), int(z.n_frac)]
+    return C.fmt_of(z)
 
 
 def run(F, cfg, inp):
